@@ -174,8 +174,8 @@ def strata(tier):
         for kb in KINDS:
             for kc in KINDS:
                 heavy = sum(1 for k in (ka, kb, kc) if k == "K")
-                n = {0: 8, 1: 6, 2: 4, 3: 3}[heavy]
+                n = {0: 14, 1: 12, 2: 8, 3: 5}[heavy]
                 if not q:
-                    n *= 25
+                    n *= 15
                 out.append(Stratum("%s,%s,%s" % (ka, kb, kc), "hyp", triple(ka, kb, kc), n))
     return out
